@@ -396,6 +396,8 @@ def _run_pretty(pretty_fn, value, ctx, trailing_comment=None):
             _warn_about_bad_printer(pretty_fn, value, exc=e)
             doc = repr(value)
 
+    ctx.end_visit(value)
+
     if not (
         isinstance(doc, str) or
         isinstance(doc, Doc)
@@ -409,8 +411,6 @@ def _run_pretty(pretty_fn, value, ctx, trailing_comment=None):
             'an instance of str or Doc. {} returned '
             '{} instead.'.format(fnname, repr(doc))
         )
-
-    ctx.end_visit(value)
 
     return doc
 
